@@ -69,6 +69,21 @@ CLAIMS = {
              "with the implementation on every run. Model follows fix commits 9688ff1 (UTC offset 0) and 6d91df4 (validators).",
         technique="Coq proof (symbolic round-trip + decode soundness) + correspondence + reference-layout search",
         design="4/C16"),
+    "C14": dict(
+        text="Coq theorems (axiom-free) over value trees of unbounded depth and width: decoding the standard A-XDR "
+             "encoding of any supported value (null, boolean, 8/16/32/64-bit signed/unsigned, enum, octet-string, "
+             "date-time/date/time, arrays, structures) returns the corresponding Python value and consumes exactly "
+             "the encoded bytes (nested induction with a mutual list lemma); single- and multi-byte length prefixes "
+             "are understood and produced (all lengths < 2^32); the four value encoders and the capture-object / "
+             "range-descriptor encoders equal the standard encoder; EVERY non-empty proper prefix of every encoding "
+             "is refused by parse_as_dlms_data with an ordinary error; and the decoder terminates on every input "
+             "(no fuel exhaustion, proved with a consumption lemma and fuel monotonicity). The tag->decoder table "
+             "is regenerated from the source by probing each class. Tie: correspondence on complete encodings, "
+             "every proper prefix of encodings <= 80 bytes, multi-value buffers, malformed and random bytes.",
+        note="Trusted: Coq kernel, translator (behavioural probing of DlmsDataFactory.MAP), extraction + driver, "
+             "Python harness. Model follows fix commits f14702e (bounds check), bace32e (length prefix), 079d089 (signed int8).",
+        technique="Coq proof (nested structural induction, fuelled decoder with termination proof) + translator + correspondence",
+        design="4/C14"),
 }
 
 NOT_YET = "not yet built in this stage of the work; see DESIGN.md section 6 (build order)"
